@@ -82,6 +82,14 @@ def run_meta(task):
             g["types"] = rewrites.TI_TYPES
             g["circuit"] = 0.0
         model, tags = gen.gen_model(rnd, g)
+        if g.get("source") == "large_constraints_small_search":
+            from framework.props import bigrun
+
+            big, plant = bigrun.gen_big(rnd, {"max_vars": g.get("max_vars", 16)})
+            model = bigrun.restrict(big, plant, rnd, rnd.randint(2, 5))
+            if it % 4 == 1:
+                model, plant = bigrun.pad_model(model, plant, rnd, rnd.randint(250, 270))
+            cnt("large_models")
         if O.model_points(model) > task.get("max_points", 20000):
             continue
         cfg = gen.gen_config(rnd, model)
